@@ -1,8 +1,21 @@
 """C20, textual front end and mask construction -- helper module of contracts/c20.py (imported at its end).
 
-   sqlfluff.core.rules.noqa:   IgnoreMask._parse_noqa
+Functions under contract, in their real source:
+   sqlfluff.core.rules.noqa:    IgnoreMask._parse_noqa                      (pyvc: whole function, both loops)
+                                IgnoreMask._extract_ignore_from_comment     (pyvc)
+                                IgnoreMask.from_tree / from_source / from_source_with_dialect   (pyvc)
+   sqlfluff.core.linter.linter: Linter.lint_fix_parsed#noqa-mask            (pyvc region contract: mask of a parsed file)
+                                Linter.lint_parsed#noqa-fallback            (pyvc region contract: files without a parse tree)
+                                Linter.allowed_rule_ref_map                 (native_only executable contract: bounded)
+
+Vocabulary.  The directive grammar (docs/source/configuration/ignoring_configuration.rst) is the spec functions directive_text ..
+rules_spec / parsed_entry below, written over five text primitives (fields, trim, before_first, after_first, matching) that
+are uninterpreted in the proofs and independently implemented for the native runs.  The result of parsing one comment is
+carried through the callers as two atoms per level: tkind / text_entry (a comment TEXT), ckind / seg_entry (a comment SEGMENT);
+their definitions are @assumed statements used only where the parse happens.  A mask is then: one directive per noqa comment
+(segment / source line) in file order, each an `entry` of its comment at the comment's position (tree_mask / source_mask).
 """
-from pyvc.dsl import contract, external, spec, implies, ref_class
+from pyvc.dsl import contract, external, spec, assumed, implies, ref_class
 from pyvc.ty import INT, BOOL, StrN, TList, TTuple, TOpt, TDict, TSet
 from pyvc import exec as _X
 
@@ -271,43 +284,74 @@ def rules_spec(m, t):
     return expand_upto(m, rule_text(t), len(fields(rule_text(t), ",")))
 
 
+@spec
+def parsed_entry(e, text, line_no, line_pos, m):
+    """the (non-None) parse result e is what the directive grammar makes of the comment text `text` found at (line_no, line_pos):
+    a malformed-directive error on that line, or a directive with that position, action and rule set"""
+    t = directive_text(text)
+    k = kind_spec(t)
+    c1 = implies(k == 2, kind_of(e) == 2 and as_err(e).line_no == line_no)
+    d = as_dir(e)
+    isd = k == 1 and kind_of(e) == 1
+    c2 = implies(k == 1, kind_of(e) == 1 and d.line_no == line_no and d.line_pos == line_pos and not d.used)
+    c3 = ((d.action is None) == (not has_action(t)) and (d.action == "enable") == (has_action(t) and action_text(t) == "enable")
+          and (d.action == "disable") == (has_action(t) and action_text(t) == "disable")) if isd else True
+    c4 = ((d.rules is None) == all_rules(t)) if isd else True
+    c5 = (list(some_list(d.rules)) == sorted(rules_spec(m, t))) if (isd and not all_rules(t) and d.rules is not None) else True
+    return k != 0 and c1 and c2 and c3 and c4 and c5
+
+
+# The two symbols below are what the callers of _parse_noqa see (atoms: no text reasoning is needed to carry them through the
+# loops of from_tree / from_source).  Their definitions -- the grammar above -- are the @assumed statements tkind_def /
+# text_entry_def, used (uses_axioms) only where the parse is actually done, in _parse_noqa; natively each symbol IS its definition.
+@spec(uninterpreted=True)
+def tkind(text: StrN) -> INT:
+    """what a comment text is: 0 no directive, 1 a noqa directive, 2 a malformed one"""
+    return kind_spec(directive_text(text))
+
+
+@spec(uninterpreted=True)
+def text_entry(e: Obj, text: StrN, line_no: INT, line_pos: INT, m: RefMap) -> BOOL:
+    """e is what the comment text stands for at that position under reference map m (see parsed_entry)"""
+    return parsed_entry(e, text, line_no, line_pos, m)
+
+
+@assumed(props=(PROP,))
+def tkind_def(text: StrN) -> BOOL:
+    return tkind(text) == kind_spec(directive_text(text))
+
+
+@assumed(props=(PROP,))
+def text_entry_def(e: Obj, text: StrN, line_no: INT, line_pos: INT, m: RefMap) -> BOOL:
+    return text_entry(e, text, line_no, line_pos, m) == parsed_entry(e, text, line_no, line_pos, m)
+
+
+@spec
+def parse_result(result, text, line_no, line_pos, m):
+    """result (a NoQaDirective, an SQLParseError or None) is the parse of the comment text"""
+    c0 = (result is None) == (tkind(text) == 0) and 0 <= tkind(text) <= 2
+    c1 = (kind_of(as_obj(result)) == tkind(text) and text_entry(as_obj(result), text, line_no, line_pos, m)) if result is not None else True
+    return c0 and c1
+
+
 @contract("sqlfluff.core.rules.noqa:IgnoreMask._parse_noqa", PROP)
 class parse_noqa:
     types = {"comment": StrN, "line_no": INT, "line_pos": INT, "reference_map": RefMap,
              "comment_remainder": StrN, "action": TOpt(StrN), "rule_part": StrN, "rules": TOpt(TList(Code)),
-             "unexpanded_rules": TList(StrN), "expanded_rules": TSet(StrN), "matched": BOOL}
+             "expanded_rules": TSet(StrN), "matched": BOOL}
     ret = Entry
-    opts = {"alphabet": "noqa:=, -*LT1eblsd", "max_len": 14, "refute_free_native_str": True, "timeout_ms": 5000, "max_unknown": 3}
+    uses_axioms = [tkind_def, text_entry_def]
+    opts = {"alphabet": "noqa:=, -*LT1eblsd", "max_len": 14, "refute_free_native_str": True, "timeout_ms": 10000, "max_unknown": 3}
 
     def ensures(comment, line_no, line_pos, reference_map, result):
-        return parsed_as(result, comment, line_no, line_pos, reference_map)
+        return parse_result(result, comment, line_no, line_pos, reference_map)
 
-    def inv_1(reference_map, rule_part, unexpanded_rules, expanded_rules, _i):
+    def inv_1(reference_map, rule_part, expanded_rules, _i):
         return expanded_rules == expand_upto(reference_map, rule_part, _i)
 
-    def inv_2(reference_map, rule_part, unexpanded_rules, expanded_rules, matched, r, _i, _i1):
+    def inv_2(reference_map, rule_part, expanded_rules, matched, r, _i, _i1):
         return (expanded_rules == expand_upto(reference_map, rule_part, _i1) | union_upto(reference_map, r, _i)
                 and matched == (_i > 0))
-
-
-_NOQA = "sqlfluff/core/rules/noqa.py"
-MUTANTS = [
-    ("parse_matched_not_reset", _NOQA, "                        for r in unexpanded_rules:\n                            matched = False\n",
-     "                        matched = False\n                        for r in unexpanded_rules:\n"),
-    ("parse_enable_disable_swapped", _NOQA, '                        action, rule_part = comment_remainder.split("=", 1)\n',
-     '                        action, rule_part = comment_remainder.split("=", 1)\n'
-     '                        action = {"enable": "disable", "disable": "enable"}.get(action, action)\n'),
-    ("parse_rules_split_on_semicolon", _NOQA, 'r.strip() for r in rule_part.split(",")', 'r.strip() for r in rule_part.split(";")'),
-    ("parse_all_not_recognised", _NOQA, '                    if rule_part != "all":\n', '                    if True:\n'),
-    ("parse_first_dashes", _NOQA, 'comment = [c.strip() for c in comment.split("--")][-1]', 'comment = [c.strip() for c in comment.split("--")][0]'),
-    ("parse_colon_optional", _NOQA, '                if not comment_remainder.startswith(":"):\n', '                if False:\n'),
-    ("parse_line_off_by_one", _NOQA, "                    return NoQaDirective(line_no, line_pos, rules, action, comment)",
-     "                    return NoQaDirective(line_no + 1, line_pos, rules, action, comment)"),
-    ("parse_bare_colon_dropped", _NOQA, "            return NoQaDirective(line_no, line_pos, None, None, comment)\n", "            return None\n"),
-    ("parse_first_match_only", _NOQA, "                                expanded_rules |= expanded\n                                matched = True\n",
-     "                                expanded_rules |= expanded\n                                matched = True\n                                break\n"),
-]
-
 
 
 # ================================================================== comment segment -> parse result
@@ -400,22 +444,27 @@ def comment_content(c0):
     return ltrim(c1[2:]) if c1.startswith("/*") else c1
 
 
-@spec
-def parsed_as(result, text, line_no, line_pos, m):
-    """`result` is what the directive grammar makes of the comment text `text` found at (line_no, line_pos):
-    nothing, a malformed-directive error on that line, or a directive with that position, action and rule set"""
-    t = directive_text(text)
-    k = kind_spec(t)
-    c0 = (result is None) == (k == 0)
-    c1 = implies(k == 2, kind_of(as_obj(result)) == 2 and as_err(as_obj(result)).line_no == line_no)
-    d = as_dir(as_obj(result))
-    isd = k == 1 and kind_of(as_obj(result)) == 1
-    c2 = implies(k == 1, kind_of(as_obj(result)) == 1 and d.line_no == line_no and d.line_pos == line_pos and not d.used)
-    c3 = ((d.action is None) == (not has_action(t)) and (d.action == "enable") == (has_action(t) and action_text(t) == "enable")
-          and (d.action == "disable") == (has_action(t) and action_text(t) == "disable")) if isd else True
-    c4 = ((d.rules is None) == all_rules(t)) if isd else True
-    c5 = (list(some_list(d.rules)) == sorted(rules_spec(m, t))) if (isd and not all_rules(t) and d.rules is not None) else True
-    return c0 and c1 and c2 and c3 and c4 and c5
+# segment-level atoms (definitions: ckind_def / seg_entry_def, used only in _extract_ignore_from_comment)
+@spec(uninterpreted=True)
+def ckind(c: RawSegment) -> INT:
+    """what the text of comment segment c is: 0 no directive, 1 a noqa directive, 2 a malformed one"""
+    return tkind(comment_content(trim(seg_text(c))))
+
+
+@spec(uninterpreted=True)
+def seg_entry(e: Obj, c: RawSegment, m: RefMap) -> BOOL:
+    """e is what comment segment c stands for, at c's source position"""
+    return text_entry(e, comment_content(trim(seg_text(c))), pm_line(c.pos_marker), pm_pos(c.pos_marker), m)
+
+
+@assumed(props=(PROP,))
+def ckind_def(c: RawSegment) -> BOOL:
+    return ckind(c) == tkind(comment_content(trim(seg_text(c))))
+
+
+@assumed(props=(PROP,))
+def seg_entry_def(e: Obj, c: RawSegment, m: RefMap) -> BOOL:
+    return seg_entry(e, c, m) == text_entry(e, comment_content(trim(seg_text(c))), pm_line(c.pos_marker), pm_pos(c.pos_marker), m)
 
 
 @contract("sqlfluff.core.rules.noqa:IgnoreMask._extract_ignore_from_comment", PROP)
@@ -424,11 +473,12 @@ class extract_ignore_from_comment:
              "comment_line": INT, "comment_pos": INT}
     ret = Entry
     modifies = ["heap:object.segment"]
-    opts = {"refute_free_native_str": True, "timeout_ms": 5000, "max_unknown": 3}
+    uses_axioms = [ckind_def, seg_entry_def]
+    opts = {"refute_free_native_str": True, "timeout_ms": 10000, "max_unknown": 3}
 
     def ensures(comment, reference_map, result):
-        c0 = (result is None) == (seg_kind0(comment) == 0)
-        c1 = entry_of(result, comment, reference_map) if result is not None else True
+        c0 = (result is None) == (ckind(comment) == 0) and 0 <= ckind(comment) <= 2
+        c1 = (kind_of(as_obj(result)) == ckind(comment) and seg_entry(as_obj(result), comment, reference_map)) if result is not None else True
         return c0 and c1
 
 
@@ -483,14 +533,9 @@ class new_mask:
 
 
 @spec
-def seg_kind0(c):
-    return kind_spec(directive_text(comment_content(trim(seg_text(c)))))
-
-
-@spec
 def seg_kind(c):
     """what the comment segment c is: 0 no directive, 1 a noqa directive, 2 a malformed one"""
-    return kind_spec(directive_text(comment_content(trim(seg_text(c))))) if is_sql_comment(c) else 0
+    return ckind(c) if is_sql_comment(c) else 0
 
 
 @spec(recursive=True)
@@ -500,38 +545,15 @@ def seg_count(tree: BaseSegment, k: INT, n: INT) -> INT:
 
 
 @spec
-def parsed_entry(e, text, line_no, line_pos, m):
-    """the (non-None) parse result e is what the directive grammar makes of the comment text `text` found at (line_no, line_pos):
-    a malformed-directive error on that line, or a directive with that position, action and rule set"""
-    t = directive_text(text)
-    k = kind_spec(t)
-    c1 = implies(k == 2, kind_of(e) == 2 and as_err(e).line_no == line_no)
-    d = as_dir(e)
-    isd = k == 1 and kind_of(e) == 1
-    c2 = implies(k == 1, kind_of(e) == 1 and d.line_no == line_no and d.line_pos == line_pos and not d.used)
-    c3 = ((d.action is None) == (not has_action(t)) and (d.action == "enable") == (has_action(t) and action_text(t) == "enable")
-          and (d.action == "disable") == (has_action(t) and action_text(t) == "disable")) if isd else True
-    c4 = ((d.rules is None) == all_rules(t)) if isd else True
-    c5 = (list(some_list(d.rules)) == sorted(rules_spec(m, t))) if (isd and not all_rules(t) and d.rules is not None) else True
-    return k != 0 and c1 and c2 and c3 and c4 and c5
-
-
-@spec(uninterpreted=True)
-def entry_of(e: Obj, c: RawSegment, m: RefMap) -> BOOL:
-    """e is what comment segment c stands for"""
-    return parsed_entry(e, comment_content(trim(seg_text(c))), pm_line(c.pos_marker), pm_pos(c.pos_marker), m)
-
-
-@spec
 def tree_mask(ds, es, tree, m, n):
-    """(ds, es) are the directives and malformed-directive errors of the first n comments of the tree: one directive per
-    noqa comment, in file order, each on the line of its comment; one error per malformed one"""
+    """(ds, es) are the directives and the malformed-directive errors of the first n comments of the tree: one directive per
+    noqa comment, in file order, each at the position of its comment (seg_entry); one error per malformed one"""
     cs = comments_of(tree)
     c1 = len(ds) == seg_count(tree, 1, n) and len(es) == seg_count(tree, 2, n)
-    c2 = all(implies(seg_kind(cs[i]) == 1, 0 <= seg_count(tree, 1, i) < len(ds) and entry_of(ds[seg_count(tree, 1, i)], cs[i], m))
-             for i in range(0, n))
-    c3 = all(implies(seg_kind(cs[i]) == 2, 0 <= seg_count(tree, 2, i) < len(es) and entry_of(es[seg_count(tree, 2, i)], cs[i], m))
-             for i in range(0, n))
+    c2 = all((0 <= seg_count(tree, 1, i) < len(ds) and kind_of(ds[seg_count(tree, 1, i)]) == 1
+              and seg_entry(ds[seg_count(tree, 1, i)], cs[i], m)) if seg_kind(cs[i]) == 1 else True for i in range(0, n))
+    c3 = all((0 <= seg_count(tree, 2, i) < len(es) and kind_of(es[seg_count(tree, 2, i)]) == 2
+              and seg_entry(es[seg_count(tree, 2, i)], cs[i], m)) if seg_kind(cs[i]) == 2 else True for i in range(0, n))
     return c1 and c2 and c3
 
 
@@ -541,7 +563,7 @@ class from_tree:
              "violations": TList(SQLBaseError), "ignore_entry": Entry}
     ret = TTuple(IgnoreMask, TList(SQLBaseError))
     modifies = ["heap:object.segment"]
-    opts = {"refute_free_native_str": True, "timeout_ms": 8000, "max_unknown": 3}
+    opts = {"timeout_ms": 10000, "max_unknown": 3}
 
     def ensures(tree, reference_map, result):
         return tree_mask(result[0]._ignore_list, result[1], tree, reference_map, len(comments_of(tree)))
@@ -550,10 +572,353 @@ class from_tree:
         return tree_mask(ignore_buff, violations, tree, reference_map, _i)
 
 
+# ================================================================== raw source -> mask  (from_source: files without a parse tree)
+RegexLexer = ref_class("sqlfluff.core.parser.lexer:RegexLexer")
+Span = TOpt(TTuple(INT, INT))
+
+
+@spec(uninterpreted=True)
+def span_of(rx: RegexLexer, line: StrN) -> Span:
+    """where the inline comment of a source line is (None: the line has none)"""
+    return rx.search(line)
+
+
+@external("sqlfluff.core.parser.lexer:RegexLexer.search", PROP)
+class regex_search:
+    types = {"self": RegexLexer, "forward_string": StrN}
+    ret = Span
+    functional = True
+
+    def ensures(self, forward_string, result):
+        return result == span_of(self, forward_string)
+
+
+@spec
+def has_comment(rx, line):
+    return len(line) > 0 and span_of(rx, line) is not None
+
+
+@spec
+def comment_start(rx, line):
+    return some_span(span_of(rx, line))[0]
+
+
+@spec
+def comment_text(rx, line):
+    """the inline comment of the line"""
+    return line[some_span(span_of(rx, line))[0]:some_span(span_of(rx, line))[1]]
+
+
+@spec
+def some_span(sp: TTuple(INT, INT)):
+    return sp
+
+
+@spec
+def line_kind(rx, line):
+    """what the source line carries: 0 no directive, 1 a noqa directive, 2 a malformed one"""
+    return tkind(comment_text(rx, line)) if has_comment(rx, line) else 0
+
+
+@spec(recursive=True)
+def line_count(source: StrN, rx: RegexLexer, k: INT, n: INT) -> INT:
+    """number of lines of kind k among the first n lines of the source (lines are separated by LF, as for violations: C31)"""
+    return 0 if n <= 0 else line_count(source, rx, k, n - 1) + (1 if line_kind(rx, fields(source, "\n")[n - 1]) == k else 0)
+
+
+@spec
+def source_mask(ds, es, source, rx, m, n):
+    """(ds, es) are the directives and the malformed-directive errors of the first n lines of the source: one directive per
+    line with a noqa comment, in file order, with line number = 1 + number of LF before it"""
+    ls = fields(source, "\n")
+    c1 = len(ds) == line_count(source, rx, 1, n) and len(es) == line_count(source, rx, 2, n)
+    c2 = all((0 <= line_count(source, rx, 1, i) < len(ds) and kind_of(ds[line_count(source, rx, 1, i)]) == 1
+              and text_entry(ds[line_count(source, rx, 1, i)], comment_text(rx, ls[i]), i + 1, comment_start(rx, ls[i]), m))
+             if line_kind(rx, ls[i]) == 1 else True for i in range(0, n))
+    c3 = all((0 <= line_count(source, rx, 2, i) < len(es) and kind_of(es[line_count(source, rx, 2, i)]) == 2
+              and text_entry(es[line_count(source, rx, 2, i)], comment_text(rx, ls[i]), i + 1, comment_start(rx, ls[i]), m))
+             if line_kind(rx, ls[i]) == 2 else True for i in range(0, n))
+    return c1 and c2 and c3
+
+
+@contract("sqlfluff.core.rules.noqa:IgnoreMask.from_source", PROP)
+class from_source:
+    types = {"cls": _IgnoreMaskCls, "source": StrN, "inline_comment_regex": RegexLexer, "reference_map": RefMap,
+             "ignore_buff": TList(NoQaDirective), "violations": TList(SQLBaseError), "ignore_entry": Entry, "match": Span}
+    ret = TTuple(IgnoreMask, TList(SQLBaseError))
+    opts = {"timeout_ms": 10000, "max_unknown": 3}
+
+    def ensures(source, inline_comment_regex, reference_map, result):
+        return source_mask(result[0]._ignore_list, result[1], source, inline_comment_regex, reference_map, len(fields(source, "\n")))
+
+    def inv_1(source, inline_comment_regex, reference_map, ignore_buff, violations, _i):
+        return source_mask(ignore_buff, violations, source, inline_comment_regex, reference_map, _i)
+
+
+StringLexer = ref_class("sqlfluff.core.parser.lexer:StringLexer", name=StrN)
+ref_class("sqlfluff.core.parser.lexer:RegexLexer", base="StringLexer")
+Dialect = ref_class("sqlfluff.core.dialects.base:Dialect", lexer_matchers=TList(StringLexer))
+
+
+@spec
+def as_regex(x: RegexLexer):
+    return x
+
+
+@contract("sqlfluff.core.rules.noqa:IgnoreMask.from_source_with_dialect", PROP)
+class from_source_with_dialect:
+    types = {"cls": _IgnoreMaskCls, "source": StrN, "dialect": Dialect, "reference_map": RefMap,
+             "inline_comment_regex": TOpt(RegexLexer)}
+    ret = TTuple(IgnoreMask, TList(SQLBaseError))
+    opts = {"timeout_ms": 10000, "max_unknown": 3}
+
+    def ensures(source, dialect, reference_map, result):
+        ms = dialect.lexer_matchers
+        # without an inline-comment matcher in the dialect: no directives; otherwise the source mask under the FIRST such matcher
+        c1 = implies(all(ms[i].name != "inline_comment" for i in range(len(ms))), len(result[0]._ignore_list) == 0 and len(result[1]) == 0)
+        c2 = all(implies(ms[j].name == "inline_comment" and all(ms[i].name != "inline_comment" for i in range(0, j)),
+                         source_mask(result[0]._ignore_list, result[1], source, as_regex(ms[j]), reference_map, len(fields(source, "\n"))))
+                 for j in range(len(ms)))
+        return c1 and c2
+
+
+# ================================================================== which map, and whether a mask at all (Linter)
+from sqlfluff.core.linter.linter import Linter as _LinterCls  # noqa: E402  (value of the `cls` parameter)
+from pyvc.ty import SINK  # noqa: E402
+from pyvc.dsl import rec_class  # noqa: E402
+
+FluffConfig = ref_class("sqlfluff.core.config.fluffconfig:FluffConfig")
+RulePack = ref_class("sqlfluff.core.rules.base:RulePack", reference_map=RefMap)
+CfgVal = TOpt(Obj)      # a configuration value: None for every falsy value (None, False, "", 0), else an opaque object
+
+
+@spec(uninterpreted=True)
+def cfg_val(cfg: FluffConfig, key: StrN) -> CfgVal:
+    """the value of a config key in the `core` section, falsy values identified with None (config objects are not written here)"""
+    return cfg.get(key) or None
+
+
+@external("sqlfluff.core.config.fluffconfig:FluffConfig.get", PROP)
+class config_get:
+    types = {"self": FluffConfig, "val": StrN, "section": StrN}
+    ret = CfgVal
+
+    def ensures(self, val, section="core", default=None, result=None):
+        return result == cfg_val(self, val)
+
+
+@spec(uninterpreted=True)
+def with_specials(m: RefMap) -> RefMap:
+    """m plus the three special codes, each standing for itself"""
+    return {**m, "PRS": {"PRS"}, "LXR": {"LXR"}, "TMP": {"TMP"}}
+
+
+@spec(uninterpreted=True)
+def allowed_map(m: RefMap, exc: CfgVal) -> RefMap:
+    """the reference map noqa comments are read with.  Without `disable_noqa_except`: m itself.  With it: only the listed
+    rules stay referencable -- every reference of m (and PRS / LXR / TMP) keeps exactly those of its codes that some listed
+    reference (comma separated; code, name, group, alias or glob) stands for"""
+    import fnmatch
+    if not exc:
+        return m
+    full = {**m, "PRS": {"PRS"}, "LXR": {"LXR"}, "TMP": {"TMP"}}
+    listed = set()
+    for ref in exc.split(","):
+        for k in full:
+            if fnmatch.fnmatchcase(k, ref.strip()):
+                listed |= full[k]
+    return {k: {c for c in v if c in listed} for k, v in full.items()}
+
+
+@contract("sqlfluff.core.linter.linter:Linter.allowed_rule_ref_map", PROP)
+class allowed_rule_ref_map:
+    """dict comprehension / in-place extension of the argument through an alias are outside the symbolic subset: the
+    executable contract is run natively on the real function (bounded, labelled so); its text is what the two call sites use."""
+    types = {"cls": _LinterCls, "reference_map": RefMap, "disable_noqa_except": CfgVal}
+    ret = RefMap
+    modifies = ["reference_map"]
+    opts = {"native_only": True, "alphabet": "AB1", "max_len": 2}
+
+    def ensures(reference_map, disable_noqa_except, result, old):
+        c1 = result == allowed_map(old.reference_map, disable_noqa_except)
+        # the caller's map: unchanged but for the three special codes (each standing for itself) -- so that reading the
+        # comments of another variant of the file with the same rule pack gives the same mask
+        c2 = reference_map == old.reference_map or reference_map == with_specials(old.reference_map)
+        c3 = allowed_map(reference_map, disable_noqa_except) == result
+        return c1 and c2 and c3
+
+
+def _build_except(rng, gen):
+    return rng.choice(["A", "A*", "B?", "*", "A,B1", " A , ZZ", "PRS", "P*", "[AB]1", "1", "AB,LXR", "??"])
+
+
+from pyvc import replay as _replay  # noqa: E402
+
+_replay.BUILDERS["object"] = _build_except
+
+
+@spec
+def noqa_off(config):
+    """noqa processing is turned off altogether: disable_noqa is set and there is no disable_noqa_except"""
+    return cfg_val(config, "disable_noqa") is not None and cfg_val(config, "disable_noqa_except") is None
+
+
+@contract("sqlfluff.core.linter.linter:Linter.lint_fix_parsed#noqa-mask", PROP)
+class lint_fix_parsed_mask:
+    """the statements of lint_fix_parsed that build the ignore mask of a parsed file"""
+    region = ('disable_noqa_except: Optional[str] = config.get("disable_noqa_except")', "save_tree = tree")
+    region_params = ["cls", "tree", "config", "rule_pack", "initial_linting_errors"]
+    types = {"cls": _LinterCls, "tree": BaseSegment, "config": FluffConfig, "rule_pack": RulePack,
+             "initial_linting_errors": TList(SQLBaseError), "disable_noqa_except": CfgVal, "allowed_rules_ref_map": RefMap,
+             "ignore_mask": TOpt(IgnoreMask), "ivs": TList(SQLBaseError)}
+    ghost_out = {"ignore_mask": TOpt(IgnoreMask), "ivs": TList(SQLBaseError), "errs": ("initial_linting_errors", TList(SQLBaseError))}
+    modifies = ["heap:object.segment", "heap:RulePack.reference_map"]
+    opts = {"timeout_ms": 10000, "max_unknown": 3}
+
+    def ensures(tree, config, rule_pack, initial_linting_errors, ignore_mask, ivs, errs, old):
+        m = allowed_map(old.rule_pack.reference_map, cfg_val(config, "disable_noqa_except"))
+        # turning noqa processing off hides nothing: no mask at all, and no noqa parse errors either
+        c1 = implies(noqa_off(config), ignore_mask is None and errs == old.initial_linting_errors)
+        # otherwise: the mask holds exactly the directives of the comments of the tree, read with the allowed references
+        c2 = (tree_mask(ignore_mask._ignore_list, ivs, tree, m, len(comments_of(tree)))
+              and errs == old.initial_linting_errors + ivs) if (not noqa_off(config) and ignore_mask is not None) else True
+        c3 = implies(not noqa_off(config), ignore_mask is not None)
+        return c1 and c2 and c3
+
+
+ParsedString = rec_class("sqlfluff.core.linter.common:ParsedString", parsed_variants=SINK, templating_violations=SINK, time_dict=SINK,
+                         config=FluffConfig, fname=SINK, source_str=StrN)
+
+
+@contract("sqlfluff.core.linter.linter:Linter.lint_parsed#noqa-fallback", PROP)
+class lint_parsed_fallback:
+    """the branch of lint_parsed for files without a parse tree (fatal templating failure): the mask comes from the raw source"""
+    region = ("rule_timings = []", None)
+    region_params = ["cls", "parsed", "rule_pack", "violations"]
+    types = {"cls": _LinterCls, "parsed": ParsedString, "rule_pack": RulePack, "violations": TList(SQLBaseError),
+             "disable_noqa_except": CfgVal, "allowed_rules_ref_map": RefMap, "ignore_mask": TOpt(IgnoreMask),
+             "ignore_violations": TList(SQLBaseError), "rule_timings": SINK}
+    ghost_out = {"ignore_mask": TOpt(IgnoreMask), "ignore_violations": TList(SQLBaseError), "errs": ("violations", TList(SQLBaseError))}
+    modifies = ["heap:RulePack.reference_map"]
+    opts = {"timeout_ms": 10000, "max_unknown": 3}
+
+    def ensures(parsed, rule_pack, violations, ignore_mask, ignore_violations, errs, old):
+        m = allowed_map(old.rule_pack.reference_map, cfg_val(parsed.config, "disable_noqa_except"))
+        ms = as_dialect(cfg_val(parsed.config, "dialect_obj")).lexer_matchers
+        c1 = implies(noqa_off(parsed.config), ignore_mask is None and errs == old.violations)
+        c3 = implies(not noqa_off(parsed.config), ignore_mask is not None)
+        # the same statement as from_source_with_dialect's, with the allowed references
+        c2 = (all(implies(ms[j].name == "inline_comment" and all(ms[i].name != "inline_comment" for i in range(0, j)),
+                          source_mask(ignore_mask._ignore_list, ignore_violations, parsed.source_str, as_regex(ms[j]), m,
+                                      len(fields(parsed.source_str, "\n"))))
+                  for j in range(len(ms)))
+              and errs == old.violations + ignore_violations) if (not noqa_off(parsed.config) and ignore_mask is not None) else True
+        return c1 and c2 and c3
+
+
+@spec
+def as_dialect(d: Dialect):
+    return d
+
+
 # ================================================================== bounded companions (labelled; not proofs)
 def _failed(ident, function, detail):
     return {"name": ident, "id": ident, "kind": "bounded", "status": "failed", "function": function,
             "backend": "CPython (bounded enumeration)", "detail": detail, "reproduced": True}
+
+
+# ------------------------------------------------------------------ native builders (real objects)
+_POOL = {}
+COMMENT_TEXTS = ["-- noqa", "-- noqa: LT01", "--noqa:disable=all", "-- noqa: enable=LT01,AL01", "/* noqa: disable=layout */", "/*noqa*/",
+                 "-- plain comment", "-- text -- noqa: L*", "-- noqa?", "-- noqa: disable", "/* just text */", "-- noqa: PRS, ZZ99", "# noqa: LT01",
+                 "-- noqa:", "/* noqa: foo=bar */", "--- noqa"]
+
+
+def _lexer():
+    if "lexer" not in _POOL:
+        from sqlfluff.core import FluffConfig
+        from sqlfluff.core.parser import Lexer
+        cfg = FluffConfig(overrides={"dialect": "ansi"})
+        _POOL["cfg"] = cfg
+        _POOL["lexer"] = Lexer(config=cfg)
+    return _POOL["lexer"]
+
+
+def make_tree(sql):
+    """the token sequence of the real lexer under one root segment (what from_tree crawls; comments are leaves of any parse tree)"""
+    from sqlfluff.core.parser import BaseSegment as _BS
+    if "root" not in _POOL:
+        _POOL["root"] = type("_Root", (_BS,), {"type": "file", "can_start_end_non_code": True, "allow_empty": True})
+    toks, _ = _lexer().lex(sql)
+    return _POOL["root"](toks)
+
+
+def _random_sql(rng):
+    lines = []
+    for _ in range(rng.randint(0, 4)):
+        code = rng.choice(["SELECT 1", "FROM t", "", "  , a", "WHERE x"])
+        cm = rng.choice(COMMENT_TEXTS) if rng.random() < 0.7 else ""
+        if cm.startswith("#"):
+            cm = "-- " + cm
+        lines.append((code + " " + cm).rstrip() if rng.random() < 0.8 else cm)
+    return "\n".join(lines) + ("\n" if rng.random() < 0.5 else "")
+
+
+def _build_tree(rng, gen):
+    return make_tree(_random_sql(rng))
+
+
+def _build_comment_segment(rng, gen):
+    tree = make_tree("SELECT 1 " + rng.choice([c for c in COMMENT_TEXTS if not c.startswith("#")]) + "\n")
+    cs = list(tree.recursive_crawl("comment"))
+    return cs[0] if cs else list(make_tree("SELECT 1 -- noqa\n").recursive_crawl("comment"))[0]
+
+
+def _inline_comment_matcher(name="ansi"):
+    from sqlfluff.core.dialects import dialect_selector
+    return next(m for m in dialect_selector(name).lexer_matchers if m.name == "inline_comment")
+
+
+def _build_dialect(rng, gen):
+    from types import SimpleNamespace
+    from sqlfluff.core.dialects import dialect_selector
+    d = dialect_selector(rng.choice(["ansi", "mysql", "tsql"]))
+    r = rng.random()
+    if r < 0.25:      # a dialect without an inline comment matcher
+        return SimpleNamespace(lexer_matchers=[m for m in d.lexer_matchers if m.name != "inline_comment"])
+    if r < 0.4:       # two of them: the first one counts
+        other = _inline_comment_matcher("mysql")
+        return SimpleNamespace(lexer_matchers=[m for m in d.lexer_matchers[:3]] + [other] + list(d.lexer_matchers))
+    return d
+
+
+def _build_refmap(rng):
+    from . import c20 as _m
+    return {k: set(v) for k, v in _m.SMALL_MAP.items()} if rng.random() < 0.8 else {}
+
+
+_replay.BUILDERS["BaseSegment"] = _build_tree
+_replay.BUILDERS["RawSegment"] = _build_comment_segment
+_replay.BUILDERS["RegexLexer"] = lambda rng, gen: _inline_comment_matcher(rng.choice(["ansi", "mysql"]))
+_replay.BUILDERS["Dialect"] = _build_dialect
+
+
+def _native_sweep(ident, key, cases, nontrivial_of, name, bound):
+    from pyvc.dsl import CONTRACTS
+    from pyvc.replay import NativeCheck
+    nc = NativeCheck(CONTRACTS[key])
+    failed, evals, nontrivial, samples = [], 0, 0, []
+    for args in cases:
+        verdict, detail = nc.run(args)
+        evals += 1
+        nontrivial += 1 if nontrivial_of(args) else 0
+        if verdict not in ("ok", "pre-false") and len(failed) < 5:
+            failed.append(_failed(ident, key, {"input": _replay.safe_repr({k: v for k, v in args.items() if k != "cls"})[:600],
+                                               "verdict": verdict, "detail": detail}))
+        elif len(samples) < 2 and nontrivial_of(args):
+            samples.append({"input": _replay.safe_repr({k: v for k, v in args.items() if k not in ("cls", "reference_map")})[:300], "verdict": verdict})
+    return {"name": name, "bound": bound, "rule": "requires/ensures of the proved contract, evaluated by CPython on the real function",
+            "evaluations": evals, "distinct_nontrivial": nontrivial, "samples": samples, "failed": failed}
 
 
 def bounded_parse_contract(tier, seed):
@@ -561,29 +926,203 @@ def bounded_parse_contract(tier, seed):
     documented directive grammar: every directive text of contracts/c20.py's enumeration x comment prefixes, on a small
     synthetic reference map.  Ties the uninterpreted text primitives of the proof (fields / trim / before_first /
     after_first / matching) to their executable meaning."""
-    from pyvc.dsl import CONTRACTS
-    from pyvc.replay import NativeCheck
     from . import c20 as _m
     key = "sqlfluff.core.rules.noqa:IgnoreMask._parse_noqa"
-    nc = NativeCheck(CONTRACTS[key])
     bodies = list(dict.fromkeys(_m._directive_bodies(tier)))
-    prefixes = ["", "-- ", "some text -- ", "-- a -- b --", "--- ", "x--y -- "]
-    failed, evals, nontrivial, samples = [], 0, 0, []
+    prefixes = ["", "-- ", "some text -- ", "-- a -- b --", "--- ", "x--y -- "] if tier == "thorough" else ["", "some text -- ", "-- a -- b --", "--- "]
     refmap = {k: set(v) for k, v in _m.SMALL_MAP.items()}
-    for b in bodies:
-        for pre in prefixes:
-            text = pre + b
-            verdict, detail = nc.run({"comment": text, "line_no": 3, "line_pos": 7, "reference_map": refmap})
+    cases = ({"comment": pre + b, "line_no": 3, "line_pos": 7, "reference_map": refmap} for b in bodies for pre in prefixes)
+    return _native_sweep("C20/front-end/parse_noqa-contract", key, cases, lambda a: kind_spec(directive_text(a["comment"])) != 0,
+                         "_parse_noqa: executable contract on the directive grammar", f"{len(bodies)} directive texts x {len(prefixes)} prefixes")
+
+
+def bounded_mask_builders(tier, seed):
+    """The contracts of _extract_ignore_from_comment / from_tree / from_source / from_source_with_dialect evaluated natively on
+    the real functions: comment segments and token trees from the real lexer, raw sources, real dialect matchers."""
+    import random
+    from . import c20 as _m
+    rng = random.Random(seed)
+    refmap = {k: set(v) for k, v in _m.SMALL_MAP.items()}
+    out = []
+    # comment segments: every pool comment x inline / block form
+    segs = []
+    for c in COMMENT_TEXTS + ["-- " + b for b in _m.MALFORMED] + ["/* " + b + " */" for b in ("noqa: LT01 ", "noqa:disable=all", "noqa: enable = all", "x -- noqa")]:
+        if c.startswith("#"):
+            continue
+        for sql in ("SELECT 1 " + c + "\n", "SELECT 1\n\n  " + c + "\nFROM t\n"):
+            segs.extend(x for x in make_tree(sql).recursive_crawl("comment"))
+    out.append(_native_sweep("C20/front-end/extract-contract", "sqlfluff.core.rules.noqa:IgnoreMask._extract_ignore_from_comment",
+                             ({"cls": _IgnoreMaskCls, "comment": sg, "reference_map": refmap} for sg in segs),
+                             lambda a: ckind(a["comment"]) != 0, "_extract_ignore_from_comment", f"{len(segs)} comment segments"))
+    n = 1500 if tier == "thorough" else 250
+    sqls = [_random_sql(rng) for _ in range(n)] + ["", "\n", "-- noqa", "SELECT 1 /* noqa: disable=all */ -- noqa: enable=all\n-- noqa?\n"]
+    out.append(_native_sweep("C20/front-end/from_tree-contract", "sqlfluff.core.rules.noqa:IgnoreMask.from_tree",
+                             ({"cls": _IgnoreMaskCls, "tree": make_tree(q), "reference_map": refmap} for q in sqls),
+                             lambda a: seg_count(a["tree"], 1, len(comments_of(a["tree"]))) + seg_count(a["tree"], 2, len(comments_of(a["tree"]))) > 0,
+                             "from_tree", f"{len(sqls)} token trees"))
+    seps = ["\x0b", "\x0c", "\x1c", "\x1d", "\x1e", "\x85", "\u2028", "\u2029", "\r"]
+    srcs = sqls + [q.replace(" ", rng.choice(seps), 1) for q in sqls[: n // 2]] + ["a" + sp + "b -- c\nx -- noqa: LT01" + sp + "\n-- noqa: disable=all" for sp in seps]
+    rx = _inline_comment_matcher()
+    out.append(_native_sweep("C20/front-end/from_source-contract", "sqlfluff.core.rules.noqa:IgnoreMask.from_source",
+                             ({"cls": _IgnoreMaskCls, "source": q, "inline_comment_regex": rx, "reference_map": refmap} for q in srcs),
+                             lambda a: "noqa" in a["source"], "from_source", f"{len(srcs)} raw sources (incl. every non-LF line boundary character)"))
+    out.append(_native_sweep("C20/front-end/from_source_with_dialect-contract", "sqlfluff.core.rules.noqa:IgnoreMask.from_source_with_dialect",
+                             ({"cls": _IgnoreMaskCls, "source": q, "dialect": _build_dialect(rng, None), "reference_map": refmap} for q in srcs[: n]),
+                             lambda a: "noqa" in a["source"], "from_source_with_dialect", f"{min(n, len(srcs))} raw sources x real / stub dialects"))
+    res = {"name": "mask construction: executable contracts on real lexer output", "bound": "; ".join(f"{o['name']}: {o['bound']}" for o in out),
+           "rule": out[0]["rule"], "evaluations": sum(o["evaluations"] for o in out), "distinct_nontrivial": sum(o["distinct_nontrivial"] for o in out),
+           "samples": [x for o in out for x in o["samples"]][:4], "failed": [f for o in out for f in o["failed"]]}
+    return res
+
+
+def bounded_allowed_map(tier, seed):
+    """Linter.allowed_rule_ref_map's executable contract on the REAL reference map of the bundled rules and on small synthetic
+    maps, for reference lists with codes, names, groups, aliases, globs, special codes and unknown references -- called twice on
+    the same map object (the second call sees the map the first one extended)."""
+    import copy
+    from sqlfluff.core import FluffConfig, Linter
+    from . import c20 as _m
+    key = "sqlfluff.core.linter.linter:Linter.allowed_rule_ref_map"
+    real = Linter(config=FluffConfig(overrides={"dialect": "ansi"})).get_rulepack().reference_map
+    excs = [None, "", "LT01", "LT01,AL01", "layout", "layout.spacing", "L003", "LT*", "L0*", "capitalisation.*, AL0[12]", "PRS", "P*", "TMP,LT01",
+            "nope", "core", "all", " LT01 , nope ", "*"]
+    cases = []
+    for base in (real, _m.SMALL_MAP, {}):
+        for e in excs:
+            m = {k: set(v) for k, v in base.items()}
+            cases.append({"cls": _LinterCls, "reference_map": m, "disable_noqa_except": e})
+            m2 = {k: set(v) for k, v in base.items()}
+            _LinterCls.allowed_rule_ref_map(m2, e)          # a map an earlier call has already seen
+            cases.append({"cls": _LinterCls, "reference_map": m2, "disable_noqa_except": e})
+    return _native_sweep("C20/allowed_rule_ref_map/contract", key, cases, lambda a: bool(a["disable_noqa_except"]),
+                         "allowed_rule_ref_map: executable contract", f"{len(cases)} (map, disable_noqa_except) pairs on the real, a synthetic and the empty map")
+
+
+def bounded_call_sites(tier, seed):
+    """The two call sites end to end (Linter.lint_string): a parsed file (lint_fix_parsed) and a file whose templating fails
+    fatally (lint_parsed's source fallback), under every combination of disable_noqa / disable_noqa_except.  Oracle = the
+    region contracts' reading: no mask at all iff noqa is off; otherwise the mask's directives are those of from_tree /
+    from_source_with_dialect under allowed_map(reference map, disable_noqa_except); malformed directives are reported unless
+    noqa is off."""
+    from sqlfluff.core import FluffConfig, Linter
+    files = [("lint_fix_parsed", "SELECT a  FROM tbl; -- noqa: LT01\nSELECT b  FROM tbl2; -- noqa?\nSELECT c  FROM t3; /* noqa: disable=AL*,PRS */\n"),
+             ("lint_parsed (source fallback)", "SELECT {{ foo( }} FROM t -- noqa: TMP\nSELECT 1 -- noqa?\nSELECT 2 -- noqa: disable=LT01,TMP\n")]
+    configs = [{}, {"disable_noqa": True}, {"disable_noqa_except": "LT01"}, {"disable_noqa": True, "disable_noqa_except": "LT01"},
+               {"disable_noqa_except": "TMP"}, {"disable_noqa": True, "disable_noqa_except": "TMP,PRS"}, {"disable_noqa": True, "disable_noqa_except": "AL0*"}]
+    failed, evals, nontrivial, samples = [], 0, 0, []
+
+    def prs_lines(lf):
+        return sorted(v.line_no for v in lf.violations if v.rule_code() == "PRS")
+    for where, sql in files:
+        # parse errors the file has of its own (none expected): the run with noqa off, where no comment is read at all
+        base = prs_lines(Linter(config=FluffConfig(overrides=dict(dialect="ansi", disable_noqa=True))).lint_string(sql))
+        for ov in configs:
+            cfg = FluffConfig(overrides=dict(dialect="ansi", **ov))
+            lf = Linter(config=cfg).lint_string(sql)
             evals += 1
-            if kind_spec(directive_text(text)) != 0:
-                nontrivial += 1
-            if verdict != "ok" and len(failed) < 5:
-                failed.append(_failed("C20/front-end/parse_noqa-contract", key, {"comment": text, "verdict": verdict, "detail": detail}))
-            elif len(samples) < 3 and "=" in text and "," in text:
-                samples.append({"comment": text, "verdict": verdict})
-    return {"name": "_parse_noqa: executable contract on the directive grammar", "bound": f"{len(bodies)} directive texts x {len(prefixes)} prefixes",
-            "rule": "requires/ensures of the proved contract, evaluated by CPython on the real function", "evaluations": evals,
-            "distinct_nontrivial": nontrivial, "samples": samples, "failed": failed}
+            off = bool(ov.get("disable_noqa")) and not ov.get("disable_noqa_except")
+            refmap = Linter(config=cfg).get_rulepack().reference_map
+            m = allowed_map(refmap, ov.get("disable_noqa_except"))
+            if lf.tree is not None:
+                want_mask, want_errs = _IgnoreMaskCls.from_tree(lf.tree, m)
+            else:
+                want_mask, want_errs = _IgnoreMaskCls.from_source_with_dialect(sql, cfg.get("dialect_obj"), m)
+            got = None if lf.ignore_mask is None else [(d.line_no, d.rules, d.action) for d in lf.ignore_mask._ignore_list]
+            want = None if off else [(d.line_no, d.rules, d.action) for d in want_mask._ignore_list]
+            malformed = prs_lines(lf)
+            want_malformed = sorted(base + ([] if off else [e.line_no for e in want_errs]))
+            nontrivial += 0 if not ov else 1
+            if got != want or malformed != want_malformed:
+                if len(failed) < 5:
+                    failed.append(_failed("C20/call-sites/mask-construction", "sqlfluff.core.linter.linter:Linter.lint_parsed",
+                                          {"call site": where, "sql": sql, "config": ov, "mask (line, rules, action)": repr(got), "expected": repr(want),
+                                           "PRS-coded errors reported on lines": malformed, "expected (the file's own + malformed noqa)": want_malformed}))
+            elif len(samples) < 2 and ov.get("disable_noqa_except"):
+                samples.append({"call site": where, "config": ov, "mask": repr(got)[:300]})
+    return {"name": "mask construction at the two call sites, end to end", "bound": f"{len(files)} files x {len(configs)} configurations",
+            "rule": "ignore_mask is None iff (disable_noqa and not disable_noqa_except); else its directives == from_tree / from_source_with_dialect under "
+                    "allowed_map(reference map, disable_noqa_except); malformed-noqa errors reported iff noqa is not off",
+            "evaluations": evals, "distinct_nontrivial": nontrivial, "samples": samples, "failed": failed}
 
 
-BOUNDED = [bounded_parse_contract]
+BOUNDED = [bounded_parse_contract, bounded_mask_builders, bounded_allowed_map, bounded_call_sites]
+
+
+_NOQA = "sqlfluff/core/rules/noqa.py"
+_LINTER = "sqlfluff/core/linter/linter.py"
+MUTANTS = [
+    ("parse_matched_not_reset", _NOQA, "                        for r in unexpanded_rules:\n                            matched = False\n",
+     "                        matched = False\n                        for r in unexpanded_rules:\n"),
+    ("parse_enable_disable_swapped", _NOQA, '                        action, rule_part = comment_remainder.split("=", 1)\n',
+     '                        action, rule_part = comment_remainder.split("=", 1)\n'
+     '                        action = "enable" if action == "disable" else ("disable" if action == "enable" else action)\n'),
+    ("parse_rules_split_on_semicolon", _NOQA, 'r.strip() for r in rule_part.split(",")', 'r.strip() for r in rule_part.split(";")'),
+    ("parse_all_not_recognised", _NOQA, '                    if rule_part != "all":\n', '                    if True:\n'),
+    ("parse_first_dashes", _NOQA, 'comment = [c.strip() for c in comment.split("--")][-1]', 'comment = [c.strip() for c in comment.split("--")][0]'),
+    ("parse_colon_optional", _NOQA, '                if not comment_remainder.startswith(":"):\n', '                if False:\n'),
+    ("parse_line_off_by_one", _NOQA, "                    return NoQaDirective(line_no, line_pos, rules, action, comment)",
+     "                    return NoQaDirective(line_no + 1, line_pos, rules, action, comment)"),
+    ("parse_bare_colon_dropped", _NOQA, "            return NoQaDirective(line_no, line_pos, None, None, comment)\n", "            return None\n"),
+    ("tree_errors_dropped", _NOQA, "                    violations.append(ignore_entry)\n                elif ignore_entry:\n", "                    pass\n                elif ignore_entry:\n"),
+    ("tree_block_comments_skipped", _NOQA, '            if comment.is_type("inline_comment", "block_comment"):\n', '            if comment.is_type("inline_comment"):\n'),
+    ("tree_directive_twice", _NOQA, "                    ignore_buff.append(ignore_entry)\n        if ignore_buff:\n            linter_logger.info(\"Parsed noqa directives from file: %r\", ignore_buff)\n        return cls(ignore_buff), violations\n\n    @classmethod\n    def from_source(",
+     "                    ignore_buff.append(ignore_entry)\n                    ignore_buff.append(ignore_entry)\n        if ignore_buff:\n            linter_logger.info(\"Parsed noqa directives from file: %r\", ignore_buff)\n        return cls(ignore_buff), violations\n\n    @classmethod\n    def from_source("),
+    ("extract_line_pos_swapped", _NOQA, "        comment_line, comment_pos = comment.pos_marker.source_position()\n", "        comment_pos, comment_line = comment.pos_marker.source_position()\n"),
+    ("source_splitlines", _NOQA, '        for idx, line in enumerate(source.split("\\n")):\n', "        for idx, line in enumerate(source.splitlines()):\n"),
+    ("source_line_zero_based", _NOQA, "                    line[match[0] : match[1]], idx + 1, match[0], reference_map\n", "                    line[match[0] : match[1]], idx, match[0], reference_map\n"),
+    ("source_comment_from_line_start", _NOQA, "                    line[match[0] : match[1]], idx + 1, match[0], reference_map\n", "                    line[: match[1]], idx + 1, match[0], reference_map\n"),
+    ("source_errors_as_directives", _NOQA, "                    violations.append(ignore_entry)  # pragma: no cover\n", "                    pass\n"),
+    ("dialect_wrong_matcher", _NOQA, '                if matcher.name == "inline_comment"\n', '                if matcher.name == "block_comment"\n'),
+    ("allowed_map_returns_full", _LINTER, "        return {k: v.intersection(noqa_set) for k, v in output_map.items()}\n", "        return output_map\n"),
+    ("allowed_map_no_glob", _LINTER, "            for x in fnmatch.filter(output_map.keys(), r):\n", "            for x in [k for k in output_map if k == r]:\n"),
+    ("allowed_map_specials_missing", _LINTER, "            output_map[special_rule] = {special_rule}\n", "            pass\n"),
+    ("allowed_map_clears_shared_map", _LINTER, "        return {k: v.intersection(noqa_set) for k, v in output_map.items()}\n",
+     "        for k in output_map:\n            output_map[k] = output_map[k].intersection(noqa_set)\n        return output_map\n"),
+    ("mask_reads_full_map", _LINTER, "            ignore_mask, ivs = IgnoreMask.from_tree(tree, allowed_rules_ref_map)\n", "            ignore_mask, ivs = IgnoreMask.from_tree(tree, rule_pack.reference_map)\n"),
+    ("mask_errors_dropped", _LINTER, "            initial_linting_errors += ivs\n", "            pass\n"),
+    ("mask_off_when_except_set", _LINTER, '        if not config.get("disable_noqa") or disable_noqa_except:\n', '        if not config.get("disable_noqa"):\n'),
+    ("fallback_ignores_except", _LINTER, '            if parsed.config.get("disable_noqa") and not disable_noqa_except:\n', '            if parsed.config.get("disable_noqa"):\n'),
+    ("fallback_mask_when_off", _LINTER, '            if parsed.config.get("disable_noqa") and not disable_noqa_except:\n', "            if False:\n"),
+    ("fallback_reads_full_map", _LINTER, "                    allowed_rules_ref_map,\n                )\n                violations += ignore_violations\n",
+     "                    rule_pack.reference_map,\n                )\n                violations += ignore_violations\n"),
+    ("fallback_errors_dropped", _LINTER, "                violations += ignore_violations\n", "                pass\n"),
+    ("parse_first_match_only", _NOQA, "                                expanded_rules |= expanded\n                                matched = True\n",
+     "                                expanded_rules |= expanded\n                                matched = True\n                                break\n"),
+]
+
+TRUSTED = [
+    "library methods used by the front end, assumed (and exercised natively against independent implementations in BOUNDED "
+    "parse_noqa-contract / mask builders): str.split(sep) = the sep-separated fields scanned left to right, str.split(sep, 1) on a text "
+    "containing sep = (before the first sep, after it), str.strip / lstrip / rstrip = white space removed, fnmatch.filter(names, pat) = the "
+    "names matching pat, each a member of names; dict.keys() as the set of keys, sorted(<set>) as a function of the set that enumerates it "
+    "without repetition (the order itself is not modelled), set union (engine models)",
+    "definitional @assumed statements tkind_def / text_entry_def (used in _parse_noqa only) and ckind_def / seg_entry_def (used in "
+    "_extract_ignore_from_comment only): each atom IS its definition in the native reading; text_entry / seg_entry read the fields line_no, "
+    "line_pos, rules, action, used of the directive -- no function under contract writes them after construction (TRUSTED of c20.py), so "
+    "the atoms stay valid while they are carried through from_tree / from_source and the two call sites",
+    "a parse result (NoQaDirective | SQLParseError | None) is modelled as an optional reference to `object` with a dynamic-class tag "
+    "(kind_of); the tag of a new object is fixed by the assumed constructor contracts: NoQaDirective(...) stores its arguments (its "
+    "precondition, action in {None, 'enable', 'disable'}, is PROVED at the one construction site) and SQLParseError(description, "
+    "line_no=...) without a segment is positioned at line_no",
+    "BaseSegment.recursive_crawl('comment') yields the comment segments of the tree in file order (comments_of); RawSegment.raw_trimmed, "
+    "BaseSegment.is_type, PositionMarker.source_position (C31), RegexLexer.search are deterministic and effect-free",
+    "FluffConfig.get: a config value is abstracted to None (every falsy value: None, False, '', 0) or an opaque object; the code under "
+    "contract only tests truthiness and passes the value on; config objects are not written by the code under contract",
+    "region contracts lint_fix_parsed#noqa-mask / lint_parsed#noqa-fallback: declared types of tree / config / rule_pack / parsed and of "
+    "the violation lists; the lint_fix_parsed region starts AT the statement reading disable_noqa_except (the statement before it mixes "
+    "config values of other types), so an edit of that very line is reported stale, not verified",
+    "Linter.allowed_rule_ref_map at its two call sites: its executable contract (validated natively only)",
+]
+NOT_COVERED = [
+    "Linter.allowed_rule_ref_map is NOT proved (dict comprehension, in-place extension of the caller's map through an alias): native_only "
+    "contract + BOUNDED allowed_rule_ref_map/contract on the real reference map.  It adds PRS / LXR / TMP to rule_pack.reference_map in "
+    "place (C32's subject); here only: nothing else of the map changes and a second call gives the same result",
+    "glob semantics (which key a pattern matches) is fnmatch's: `matching` is uninterpreted; that a code / name / group / alias given "
+    "literally matches its own key is checked only natively (BOUNDED front end on the real reference map)",
+    "under disable_noqa_except a bare `-- noqa` and `noqa: disable=all` still name EVERY rule (rules == None is not restricted to the "
+    "listed rules): the property text does not speak about disable_noqa_except, this is recorded as an observation, not an obligation",
+    "`--- noqa` is not a directive (the text after the last `--`, scanned left to right, is `- noqa`); the regex of from_source sees the "
+    "comment from its first `--` / `#`; both as coded, the documented syntax does not decide them",
+    "cli.commands (`parse` / `render`) builds its own mask for display with the same switch; lint_parsed / lint_fix_parsed outside the two "
+    "statement ranges (C33 / C18 cover other ranges)",
+]
